@@ -13,6 +13,7 @@
   (known finding D2), which is why it is a hypothesis here and not a lemma about all `Prog`.
 -/
 import RapidProofs.PruneProp
+import RapidProofs.PruneCustom
 
 namespace Rapid.C01
 
@@ -61,6 +62,19 @@ theorem reported_failure_is_real (e : Env) (hrt : RTPos e) (p : Prog) (hp : Prop
     | .failed _ er _ buf => (checkOnce p (.buf buf) TS.fresh).err = some er ∧ er.isInvalid = false
     | _ => True :=
   verdict_of_doCheck p (pruneStable_of_property e hrt p hp hbg) checks seed files early cands
+
+/-- the same with `Custom` generators nested to any depth `d`, whose functions draw, branch, skip,
+    panic and register quiet cleanups but do not call `T.Error*/Fatal*` (`GenLvl`, `PropProgC`) -/
+theorem pruneStable_of_property_with_custom (e : Env) (hrt : RTPos e) (d : Nat) (p : Prog) (hp : PropProgC e d p)
+    (hbg : BodyGood p) : PruneStable p := pruneStable_of_ps (propProgC_ps e hrt hp) hbg
+
+theorem reported_failure_is_real_with_custom (e : Env) (hrt : RTPos e) (d : Nat) (p : Prog) (hp : PropProgC e d p)
+    (hbg : BodyGood p) (checks : Nat) (seed : UInt64) (files : List FF) (early : Nat → Bool) (cands : List (List UInt64)) :
+    match verdict checks (doCheck p checks seed files early cands) with
+    | .flaky _ _ => False
+    | .failed _ er _ buf => (checkOnce p (.buf buf) TS.fresh).err = some er ∧ er.isInvalid = false
+    | _ => True :=
+  verdict_of_doCheck p (pruneStable_of_property_with_custom e hrt d p hp hbg) checks seed files early cands
 
 /-- properties that fail only fatally (Fatal*/FailNow/panic) satisfy `BodyGood` -/
 theorem bodyGood_of_fatal_only (p : Prog) (hp : TsPure p) (hfuel : ∀ src, (p.run src TS.fresh).res ≠ .error .fuel) :
